@@ -972,6 +972,21 @@ theorem mixed_chain_matrix {P : Type} [CommRing R] [StarRing R] [PhaseAlg P] [Ph
     simp only [mchain, mlaw, List.foldl_cons] at i1 i2 ⊢
     exact ⟨i1, by rw [i2, mixed_step_matrix hI e hadd hdrop hneg m s st hok]⟩
 
+/-- inverting horizontally, simplifying, breaking the permutations into swaps and inverting horizontally again gives a
+circuit with the ORIGINAL matrix; with a vertical inversion at both ends instead, likewise -/
+theorem mixed_inverse_rebuild_inverse {P : Type} [CommRing R] [StarRing R] [PhaseAlg P] [PhaseNeg P] {I : R}
+    (hI : ImagUnit I) (e : P → R) (hadd : ∀ a b : P, e (PhaseAlg.add a b) = e a * e b)
+    (hdrop : ∀ a : P, PhaseAlg.canDrop a = true → e a = 1)
+    (hneg : ∀ φ : P, e (PhaseNeg.neg φ) = star (e φ))
+    (m : ℕ) (st : MS P R) (hok : st.OK m) (d mg : Bool) (drops : List Bool) :
+    MS.U I e m (mchain I e m [.inv false true, .simp d drops, .decomp mg, .inv false true] st) = MS.U I e m st ∧
+      MS.U I e m (mchain I e m [.inv true false, .simp d drops, .regroup, .inv true false] st) = MS.U I e m st := by
+  refine ⟨?_, ?_⟩
+  · rw [(mixed_chain_matrix hI e hadd hdrop hneg m _ st hok).2]
+    simp [mlaw, MStep.law, xform]
+  · rw [(mixed_chain_matrix hI e hadd hdrop hneg m _ st hok).2]
+    simp [mlaw, MStep.law, xform, vflip_vflip]
+
 /-- the flattened view denotes the circuit of the tree model: its matrix is the matrix `compute_unitary()` of the
 circuit holding the same components (`PERM` as the `Unitary` of its permutation matrix, `PS` with its unit phase) — the
 histories of part K and the mixed histories speak of the same matrix -/
